@@ -154,12 +154,38 @@ def Fn1.eval : Fn1 → Val → Option Val
   | .toTup, .list l => some (.tup l)
   | .toTup, _ => none
 
+/-- The items a row contributes when it is spliced (a non-list counts as one item). -/
+def Val.items : Val → List Val
+  | .list l => l
+  | v => [v]
+
+/-- `abs(n)` usable by `range`. -/
+def countOf (v : Val) : Option Nat := v.idx?.map Int.natAbs
+
+/-- `utl.flatten([value], n)` for a list `value` (`n` compared numerically with the depth). -/
+def flattenLevels (n : Rat) : Nat → Rat → List Val → List Val
+  | 0, _, l => l
+  | fuel + 1, depth, l =>
+    l.flatMap fun item =>
+      if depth < n then
+        match item with
+        | .list sub => flattenLevels n fuel (depth + 1) sub
+        | x => [x]
+      else [item]
+
+def valDepth : Nat → Val → Nat
+  | 0, _ => 0
+  | f + 1, .list l => 1 + (l.map (valDepth f)).foldl max 0
+  | _, _ => 0
+
 /-- Functions applied by the two-operand mapping stream (first operand is pulled first). -/
 inductive Op2 where
   | bin (o : BinOp)
   | cons                    -- `tpl.append` / argument collection: `a, [b…] ↦ [a, b…]`
   | nar (o : NarOp)         -- `a, [lo, hi] ↦ o(a, lo, hi)`
   | wrapLo                  -- Pwrap pulls lo, hi, value: `lo, [hi, v] ↦ wrap(v, lo, hi)`
+  | stutRow                 -- Pstutter: `value, n ↦ [value] * abs(n)`
+  | flatRow                 -- Pflatten: `n, value ↦ flatten([value], n)` (a non-list is itself)
 deriving Repr, Inhabited
 
 def Op2.eval : Op2 → Val → Val → Option Val
@@ -170,22 +196,14 @@ def Op2.eval : Op2 → Val → Val → Option Val
   | .nar _, _, _ => none
   | .wrapLo, lo, .list [hi, v] => NarOp.wrap.eval v lo hi
   | .wrapLo, _, _ => none
-
-inductive StutPh where
-  | a                       -- `value = stream.next()`
-  | b (v : Val)             -- `n = n_stream.next()`
-  | e (v : Val) (k : Nat)   -- `for _ in range(abs(n)): yield copy(value)`
-deriving Repr, Inhabited
+  | .stutRow, v, n => (countOf n).map fun c => .list (List.replicate c v)
+  | .flatRow, n, .list l =>
+    n.num?.map fun q => .list (flattenLevels q.rat (valDepth 64 (.list l) + 1) 0 [.list l])
+  | .flatRow, _, x => some (.list [x])
 
 inductive ClumpPh where
   | n                                   -- `lst = []; n = n_stream.next()`
   | c (acc : List Val) (k : Nat)        -- collecting, `k` values to go
-deriving Repr, Inhabited
-
-inductive FlatPh where
-  | n                       -- `n = n_stream.next()`
-  | v (n : Val)             -- `value = stream.next()`
-  | e (items : List Val)    -- `for item in value: yield item`
 deriving Repr, Inhabited
 
 inductive PifPh where
@@ -207,9 +225,8 @@ inductive St where
   | map1 (f : Fn1) (s : St)
   | map2 (o : Op2) (a b : St) (ph : Option Val)
   | filt (f : Fn) (keep : Bool) (s : St)
-  | stut (a b : St) (ph : StutPh)
+  | join (s : St) (pend : List Val)                 -- `for item in row: yield item` over a stream of rows
   | clump (a b : St) (ph : ClumpPh)
-  | flat (a b : St) (ph : FlatPh)
   | diff (s : St) (prev : Option Val)
   | csum (s : St) (sum : Val) (tol : Rat) (acc : Val)
   | drop (s : St) (k : Nat)
@@ -243,9 +260,9 @@ def initE : Pat → St
       .slide l (sOf len (initE len)) (sOf step (initE step)) start wrap r .nil .l
   | .series start step len => .scan .add start len (sOf step (initE step))
   | .geom start grow len => .scan .mul start len (sOf grow (initE grow))
-  | .stutter p n => .stut (sOf p (initE p)) (sOf n (initE n)) .a
+  | .stutter p n => .join (.map2 .stutRow (sOf p (initE p)) (sOf n (initE n)) none) []
   | .clump p n => .clump (sOf p (initE p)) (sOf n (initE n)) .n
-  | .flatten p n => .flat (sOf p (initE p)) (sOf n (initE n)) .n
+  | .flatten p n => .join (.map2 .flatRow (sOf n (initE n)) (sOf p (initE p)) none) []
   | .diff p => .diff (sOf p (initE p)) none
   | .pconst p sum tol => .csum (sOf p (initE p)) sum tol (.int 0)
   | .drop p n => .drop (sOf p (initE p)) n
@@ -292,25 +309,6 @@ inductive Step where
   | done
   | err
 deriving Repr, Inhabited
-
-/-- `abs(n)` usable by `range`. -/
-def countOf (v : Val) : Option Nat := v.idx?.map Int.natAbs
-
-/-- `utl.flatten([value], n)` for a list `value` (`n` compared numerically with the depth). -/
-def flattenLevels (n : Rat) : Nat → Rat → List Val → List Val
-  | 0, _, l => l
-  | fuel + 1, depth, l =>
-    l.flatMap fun item =>
-      if depth < n then
-        match item with
-        | .list sub => flattenLevels n fuel (depth + 1) sub
-        | x => [x]
-      else [item]
-
-def valDepth : Nat → Val → Nat
-  | 0, _ => 0
-  | f + 1, .list l => 1 + (l.map (valDepth f)).foldl max 0
-  | _, _ => 0
 
 mutual
 def step : St → Step
@@ -364,23 +362,13 @@ def step : St → Step
     | .tau s' => .tau (.filt f keep s')
     | .done => .done
     | .err => .err
-  | .stut a b .a =>
-    match step a with
-    | .yield v a' => .tau (.stut a' b (.b v))
-    | .tau a' => .tau (.stut a' b .a)
+  | .join s (x :: xs) => .yield x (.join s xs)
+  | .join s [] =>
+    match step s with
+    | .yield row s' => .tau (.join s' row.items)
+    | .tau s' => .tau (.join s' [])
     | .done => .done
     | .err => .err
-  | .stut a b (.b v) =>
-    match step b with
-    | .yield n b' =>
-      match countOf n with
-      | some k => .tau (.stut a b' (.e v k))
-      | none => .err
-    | .tau b' => .tau (.stut a b' (.b v))
-    | .done => .done
-    | .err => .err
-  | .stut a b (.e _ 0) => .tau (.stut a b .a)
-  | .stut a b (.e v (k + 1)) => .yield v (.stut a b (.e v k))
   | .clump a b .n =>
     match step b with
     | .yield n b' =>
@@ -397,26 +385,6 @@ def step : St → Step
     | .tau a' => .tau (.clump a' b (.c acc (k + 1)))
     | .done => if acc.isEmpty then .done else .yield (.list acc) .nil
     | .err => .err
-  | .flat a b .n =>
-    match step b with
-    | .yield n b' => .tau (.flat a b' (.v n))
-    | .tau b' => .tau (.flat a b' .n)
-    | .done => .done
-    | .err => .err
-  | .flat a b (.v n) =>
-    match step a with
-    | .yield v a' =>
-      match v with
-      | .list l =>
-        match n.num? with
-        | some q => .tau (.flat a' b (.e (flattenLevels q.rat (valDepth 64 v + 1) 0 [.list l])))
-        | none => .err
-      | x => .yield x (.flat a' b .n)
-    | .tau a' => .tau (.flat a' b (.v n))
-    | .done => .done
-    | .err => .err
-  | .flat a b (.e []) => .tau (.flat a b .n)
-  | .flat a b (.e (x :: xs)) => .yield x (.flat a b (.e xs))
   | .diff s none =>
     match step s with
     | .yield v s' => .tau (.diff s' (some v))
